@@ -880,6 +880,21 @@ def check_lossless(prog: Program, res: Result) -> None:
             nm = itb.id if isinstance(itb, ast.Name) else astq.attr_base(itb)
             if nm not in fi.pos_params:
                 continue
+            # an entry is skipped only when its value IS None: `if not v` / `if v` also skips {} (= "this option with its
+            # defaults"), 0 and ""
+            vals = astq.target_names(lp.target) if "items" in norm(lp.iter) else set()
+            vnames = {e.id for e in lp.target.elts[1:] if isinstance(e, ast.Name)} if isinstance(lp.target, ast.Tuple) and "items" in norm(lp.iter) else set()
+            for t_ in ast.walk(lp):
+                if isinstance(t_, (ast.If, ast.IfExp)):
+                    tt = t_.test.operand if isinstance(t_.test, ast.UnaryOp) and isinstance(t_.test.op, ast.Not) else t_.test
+                    ops = tt.values if isinstance(tt, ast.BoolOp) else [tt]
+                    for o_ in ops:
+                        o_ = o_.operand if isinstance(o_, ast.UnaryOp) and isinstance(o_.op, ast.Not) else o_
+                        if isinstance(o_, ast.Name) and o_.id in vnames:
+                            res.touch(fi)
+                            res.ob(R, False, fi.qualname, f"entries of `{nm}` are skipped only when their value is None",
+                                   f"`{short(t_.test, 40)}` tests the entry's value by truthiness: an empty override dict (`{{}}` = this option with its schema defaults), 0 or '' "
+                                   "is treated like a missing entry and silently dropped", f"{fi.module.relpath}:{t_.lineno}")
             brks = [b for st in lp.body for b in ast.walk(st) if isinstance(b, ast.Break) and astq.enclosing_loops(b)[0] is lp]
             if not brks:
                 continue
@@ -902,8 +917,54 @@ def check_lossless(prog: Program, res: Result) -> None:
     res.floor(R, 8)
 
 
+def check_fresh(prog: Program, res: Result, sch: Schema) -> None:
+    """Builders write into sub-configurations in place (`aug_config.intensity.contrast_p = 1.0`).  That is only sound when the
+    sub-object belongs to the configuration just built: the field holding it has a per-instance default (attrs
+    `field(factory=...)`) or was assigned a fresh object in the builder.  A default written as an INSTANCE in the class body
+    (`intensity: IntensityConfig = IntensityConfig()`) is one object shared by every configuration, so what one builder call
+    switches on leaks into all later calls of the process."""
+    R = "C20-comm"
+    n = 0
+    for fi in prog.all_functions():
+        if fi.module.name != TRAIN or not fi.name.startswith("get_"):
+            continue
+        built = {}   # local name -> config class it was built as
+        for st in walk_function(fi.node):
+            if isinstance(st, ast.Assign) and len(st.targets) == 1 and isinstance(st.targets[0], ast.Name) and isinstance(st.value, ast.Call):
+                cls = norm(st.value.func).split(".")[-1]
+                if cls in sch.classes:
+                    built[st.targets[0].id] = cls
+        seen = set()
+        for st in walk_function(fi.node):
+            if isinstance(st, ast.Expr) and isinstance(st.value, ast.Call) and norm(st.value.func) == "setattr" and len(st.value.args) == 3:
+                # setattr(X.sub, name, v) is the same store
+                tgts = [ast.Attribute(value=st.value.args[0], attr="<dynamic>", ctx=ast.Store())]
+            elif isinstance(st, (ast.Assign, ast.AugAssign)):
+                tgts = astq.stmt_targets(st)
+            else:
+                continue
+            for t in tgts:
+                # X.sub.attr = v   (a store two levels below a configuration built here)
+                if isinstance(t, ast.Attribute) and isinstance(t.value, ast.Attribute) and isinstance(t.value.value, ast.Name) and t.value.value.id in built:
+                    cls, sub = built[t.value.value.id], t.value.attr
+                    if (cls, sub) in seen:
+                        continue
+                    seen.add((cls, sub))
+                    f = sch.fields_of(cls).get(sub)
+                    fresh_here = any(isinstance(s2, ast.Assign) and norm(s2.targets[0]) == f"{t.value.value.id}.{sub}" and isinstance(s2.value, ast.Call) and s2.lineno < st.lineno
+                                     and not any(isinstance(a_, ast.If) for a_ in ancestors(s2) if a_ not in list(ancestors(st))) for s2 in walk_function(fi.node))
+                    n += 1
+                    res.touch(fi)
+                    res.ob(R, f is not None and (f.factory is not None or fresh_here), fi.qualname, f"{cls}.{sub} is a per-instance object when {fi.name} writes into it",
+                           f"{fi.name} stores into `{t.value.value.id}.{sub}.…` in place, but `{cls}.{sub}` defaults to "
+                           f"`{short(f.default, 40) if f is not None and f.default is not None else 'nothing'}` written in the class body - one object shared by every {cls}: "
+                           "settings made by one builder call persist into later calls", f"{fi.module.relpath}:{st.lineno}")
+    res.ob(R, n >= 2, f"{TRAIN}", "in-place sub-configuration writes found", f"only {n} in-place writes into sub-configurations found in the builders", "")
+
+
 def check(prog: Program, res: Result) -> None:
     sch = Schema(prog)
+    check_fresh(prog, res, sch)
     res.extra["schema"] = sch.stats()
     check_fwd(prog, res)
     check_wire(prog, res, sch)
